@@ -60,3 +60,20 @@ VARIANTS += [
          old="        sorted_trials = sorted(trials, key=lambda trial: cast(float, trial.value))\n",
          new="        sorted_trials = sorted(trials, key=lambda trial: (cast(float, trial.value), trial.datetime_start))\n"),
 ]
+
+TPE9 = "optuna/samplers/_tpe/sampler.py"
+GRID9 = "optuna/samplers/_grid.py"
+VARIANTS += [
+    dict(id="c09-pruned-score-from-last-dict-item", prop="C09", file=TPE9, expect="R09.6",
+         old="        step, intermediate_value = max(trial.intermediate_values.items())\n",
+         new="        step, intermediate_value = next(reversed(trial.intermediate_values.items()))\n"),
+    dict(id="c09-pruned-score-from-list-index", prop="C09", file=TPE9, expect="R09.6",
+         old="        step, intermediate_value = max(trial.intermediate_values.items())\n",
+         new="        step, intermediate_value = list(trial.intermediate_values.items())[-1]\n"),
+    dict(id="c09-neutral-pruned-score-sorted", prop="C09", file=TPE9, expect=None,
+         old="        step, intermediate_value = max(trial.intermediate_values.items())\n",
+         new="        step, intermediate_value = sorted(trial.intermediate_values.items())[-1]\n"),
+    dict(id="c09-grid-value-identity", prop="C09", file=GRID9, expect="R09.7",
+         old="        return (value1 == value2) or (value1_is_nan and value2_is_nan)\n",
+         new="        return value1 is value2 or value1 == value2\n"),
+]
